@@ -7,7 +7,8 @@ from vlib.workers import ALL, WorkerDied, WorkerSet
 
 PROPERTY = "C13"
 LEVEL = "exploration"
-RULE = ("Well-nested call trees (depth <= 4, fan-out <= 2) whose nodes are extract / extract_outermost / extract_child / "
+RULE = ("Entry points: extract(item), extract_outermost, extract_child, fill_context and the running-stack entry points extract_since(frame), extract_until(frame, limit=int), extract_until(frame, limit=frame) and extract(StackSlice(...)), each taking its own option pair. "
+        "Well-nested call trees (depth <= 4, fan-out <= 2) whose nodes are extract / extract_outermost / extract_child / "
         "fill_context invocations with their own (with_contexts, recurse_child_tasks) pair, children invoked from inside the "
         "hook the invocation triggers, optionally raising a BaseException or an ordinary exception through the invocation; "
         "single-threaded, and 2-4 threads each running such a tree under a generated cooperative schedule over the hook entry "
@@ -25,11 +26,12 @@ ASSUMPTIONS = [
 
 def nodes():
     leaf = st.fixed_dictionaries({
-        "kind": st.sampled_from(["extract", "extract", "outermost", "child", "fill"]),
+        "kind": st.sampled_from(["extract", "extract", "outermost", "child", "fill", "since", "until_int", "until_frame", "slice"]),
         "wc": st.booleans(), "rc": st.booleans(), "kids": st.just([]),
         "boom": st.sampled_from([None, None, None, "base", "exc"])})
     return st.recursive(leaf, lambda ch: st.fixed_dictionaries({
-        "kind": st.sampled_from(["extract", "extract", "extract", "outermost", "child", "fill"]),
+        "kind": st.sampled_from(["extract", "extract", "extract", "outermost", "child", "fill", "since", "until_int", "until_frame",
+                                 "slice"]),
         "wc": st.booleans(), "rc": st.booleans(), "kids": st.lists(ch, min_size=1, max_size=2),
         "boom": st.sampled_from([None, None, None, "base", "exc"])}), max_leaves=8)
 
